@@ -107,11 +107,10 @@ def correspondence(chk, R, rng, n, tag, need_banks=False, gen=None):
                 chk.violation("reported %d passes with budget %d" % (ci[2], b), rep)
             for pr in layout_monitor.check_layout(a):
                 nlay_bad += 1
-                if pr["class"] == "zero_size_item_extends_output":
-                    chk.known("F49", "a zero-sized written item extends the output to its position")
-                else:
-                    chk.violation("layout invariant broken on the implementation's output (%s: %s)" % (pr["class"], pr["what"]),
-                                  dict(rep, kind="layout2"))
+                # (F49 is repaired: a zero-sized written item no longer extends the output; the edge family keeps `#d ""`
+                #  after `#addr` as a regression -- class zero_size_item_extends_output would be reported here)
+                chk.violation("layout invariant broken on the implementation's output (%s: %s)" % (pr["class"], pr["what"]),
+                              dict(rep, kind="layout2"))
         if s and ci[0] == "OK" and ci[2] == 1 and ci != cm:
             # F70: with the static-value optimisation a program without labels converges in pass 1 (statically known items
             # are flagged resolved although their stored encoding just changed); without it -- and in the model, which has
